@@ -447,6 +447,18 @@ def finish(prop, tier, seed, monitor, lost, t0, spec):
     return code
 
 
+def _foreign(fn, m, name):
+    """A foreign driver that crashes (its own oracle, on its own terms) is not this property's business."""
+    def run(*a, **k):
+        try:
+            return fn(*a, **k)
+        except Exception as e:
+            m.notes["foreign-driver-error:" + name + ":" + type(e).__name__] += 1
+            m.guard = 0
+            return None
+    return run
+
+
 def cross_workloads(m, own_contracts, modules, tier, seed, i, n, per_module):
     """Run slices of OTHER properties' drivers while this property's intrinsic monitors are attached:
     more objects, states and call shapes for the same invariants.  Only `own_contracts` count."""
@@ -472,17 +484,17 @@ def cross_workloads(m, own_contracts, modules, tier, seed, i, n, per_module):
                         if name == "C15":
                             case["single_level"], case["unobserved"] = j % 5 == 0, j % 3 == 0
                         m.case({"cross": name, **case}, canon=["cross", name, D.formula_text(case), case["frame"]["seed"]])
-                        guarded(mod.judge)(case, m)
+                        _foreign(mod.judge, m, name)(case, m)
                 elif name == "C05":
                     for kk, case in list(mod.gen_cases(tier, seed, i, n))[: k]:
                         case = mod.finish(case, kk, seed)
                         m.case({"cross": name, **case}, canon=["cross", name, mod.build_text(case), case["frame_seed"]])
-                        guarded(mod.judge)(case, m)
+                        _foreign(mod.judge, m, name)(case, m)
                 elif name == "C16":
                     for j in range(max(1, k // 8)):
                         case = {"seed": rng.randrange(2 ** 31)}
                         m.case({"cross": name, **case}, canon=["cross", name, case["seed"]])
-                        guarded(mod.judge)(case, m)
+                        _foreign(mod.judge, m, name)(case, m)
             except Exception as e:  # a foreign driver must never break this check
                 m.notes["cross-workload-error:" + name + ":" + type(e).__name__] += 1
     finally:
